@@ -232,6 +232,8 @@ func c05CheckBitmapCsums(g *c05Geo, seed uint32) {
 	if !g.csum {
 		return
 	}
+	// block bitmap checksum range: decided in VP_C05_bitmap_csum_range (KF-C05-5); here only for full groups
+	fullGroup := g.bpg == g.bs*8
 	for i := 0; i < g.groups; i++ {
 		d := g.desc(i)
 		bb := g.blockBitmapLoc(i) * g.bs
@@ -246,7 +248,9 @@ func c05CheckBitmapCsums(g *c05Geo, seed uint32) {
 			wantB &= 0xffff
 			wantI &= 0xffff
 		}
-		vp.AssertUnless("KF-C05-5", g.bpg != g.bs*8, gotB == uint64(wantB), "descriptor block bitmap checksum = crc32c(seed, blocksPerGroup/8 bitmap bytes)")
+		if fullGroup {
+			vp.Assert(gotB == uint64(wantB), "descriptor block bitmap checksum = crc32c(seed, blocksPerGroup/8 bitmap bytes)")
+		}
 		vp.Assert(gotI == uint64(wantI), "descriptor inode bitmap checksum = crc32c(seed, inodesPerGroup/8 bitmap bytes)")
 		vp.Assert(c05le16(d, 0x1e) == uint64(c05DescCsum(d, seed, i)), "descriptor checksum = low 16 bits of crc32c(seed, le32 group, descriptor with zeroed checksum)")
 	}
@@ -386,11 +390,9 @@ func c05NewFixture(bs, bpg uint32, blocks uint64, ipg uint32, flexSize uint64, c
 		totalI += uint64(d.freeInodes)
 	}
 	sb.freeBlocks, sb.freeInodes = totalB, uint32(totalI)
-	if err := fsys.writeSuperblock(); err != nil {
-		vp.Assume(false)
-	}
-	if err := fsys.writeGDT(); err != nil {
-		vp.Assume(false)
-	}
+	errSB := fsys.writeSuperblock()
+	vp.Assert(errSB == nil, "fixture: superblock written")
+	errGDT := fsys.writeGDT()
+	vp.Assert(errGDT == nil, "fixture: GDT written")
 	return &c05Fix{fs: fsys, dev: dev, seed: seed}
 }
